@@ -105,9 +105,12 @@ impl<F: Future> Future for JoinAll<F> {
 
     fn poll(mut self: Pin<&mut Self>, cx: &mut Context<'_>) -> Poll<Self::Output> {
         loop {
-            match self.as_mut().queue.poll_inner(cx) {
+            match self.as_mut().queue.poll_inner_no_remove(cx, F::poll) {
                 Poll::Ready(Some((i, x))) => {
+                    // store the output before the future is destroyed: should its destructor
+                    // panic, "slot vacant <=> output written" still holds for `Drop`
                     self.output[i].write(x);
+                    self.queue.tasks.remove(i);
                 }
                 Poll::Ready(None) => {
                     // SAFETY: for Ready(None) to be returned, we know that every future in the queue
